@@ -86,6 +86,17 @@ package nfsv4
 //@   at call OpenedFile).Lock#1 assert owner-of-that-state: arg1 == &los.owner
 //@   at call OpenedFile).Lock#1 assert in-critical-section: held(cis.lock) == 1
 
+// A lock-owner's state on a file may only be discarded once it holds no
+// locks there (lockCount gates FREE_STATEID; RFC 8881 18.38: LOCKS_HELD).
+// Discarding it earlier leaves locks in the file's lock table that no state
+// ID can release any more.
+//@ func (*nfs41LockOwnerFileState).remove
+//@   props C20
+//@   requires no-locks-held: lofs.lockCount == 0
+//@ func (*sequenceState).opFreeStateID
+//@   props C20
+//@   ensures locks-held-is-refused: true
+
 // ---------------------------------------------------------------------------
 // Reference and share counting (C18)
 
